@@ -55,6 +55,14 @@ func verifConvInput(kind int) (any, bool) {
 		c := d.Coefficient()
 		return system.Decimal(d), c.IsInt64() && c.Int64() > -1000000 && c.Int64() < 1000000
 	case 3:
+		switch verifrt.Choose("in.sform", 3) {
+		case 1: // integer renderings around the 32-bit limits: [+-]21474836dd
+			sign := []string{"", "+", "-"}[verifrt.Choose("in.sign", 3)]
+			d1, d2 := verifrt.NondetIntRange("in.d1", 0, 9), verifrt.NondetIntRange("in.d2", 0, 9)
+			return system.String(sign + "21474836" + string([]byte{byte('0' + d1), byte('0' + d2)})), true
+		case 2: // well-formed numbers far outside every range
+			return system.String([]string{"99999999999", "-99999999999", "0000000000001", "1.00000000000000000000000001"}[verifrt.Choose("in.big", 4)]), true
+		}
 		return system.String(verifrt.NondetString("in.s", verifrt.Bound(3, 5))), true
 	case 4:
 		p := []dtpb.Date_Precision{dtpb.Date_YEAR, dtpb.Date_MONTH, dtpb.Date_DAY}[verifrt.Choose("in.dp", 3)]
@@ -160,6 +168,15 @@ func verifConversion(target string) {
 	verifrt.Assume(valid)
 	in := system.Collection{x}
 	res, err := to.Func(verifCtx(), in)
+	converted := err == nil && len(res) == 1
+	// convertsToT agrees with toT (compared first: an error from toT is a finding of its own below, and yields no value)
+	c, errC := conv.Func(verifCtx(), in)
+	okc := errC == nil && len(c) == 1
+	if okc {
+		b, isBool := c[0].(system.Boolean)
+		okc = isBool && bool(b) == converted
+	}
+	verifrt.Assert(okc, "convertsToT-iff-toT-nonempty")
 	verifrt.Assert(err == nil, "toT-never-errors-on-a-single-item")
 	if err != nil {
 		return
@@ -168,13 +185,6 @@ func verifConversion(target string) {
 	if len(res) == 1 {
 		verifrt.Assert(verifIsT(target, res[0]), "toT-result-is-of-type-T")
 	}
-	c, errC := conv.Func(verifCtx(), in)
-	okc := errC == nil && len(c) == 1
-	if okc {
-		b, isBool := c[0].(system.Boolean)
-		okc = isBool && bool(b) == (len(res) == 1)
-	}
-	verifrt.Assert(okc, "convertsToT-iff-toT-nonempty")
 	switch verifMatrix(verifSourceType(kind), target) {
 	case 1:
 		verifrt.Assert(len(res) == 1, "conversion-table-says-convertible")
